@@ -451,7 +451,7 @@ func (f *Factory) Cmp(op Op, x, y *Term) *Term {
 			return f.And(f.Cmp(OpEq, x.a[0], y.a[0]), f.Cmp(OpEq, x.a[1], y.a[1]))
 		}
 		// canonical order of arguments
-		if x.id > y.id {
+		if x.h > y.h || (x.h == y.h && x.id > y.id) {
 			x, y = y, x
 		}
 	}
@@ -531,7 +531,7 @@ func (f *Factory) Iff(x, y *Term) *Term {
 		}
 		return f.Not(x)
 	}
-	if x.id > y.id {
+	if x.h > y.h || (x.h == y.h && x.id > y.id) {
 		x, y = y, x
 	}
 	return f.mk2(OpEq, 0, x, y)
